@@ -90,8 +90,13 @@ package ice
 //@ func under32Bits
 //@   ensures[C02] result0 == (x <= 2147483647)
 //@
+//@ // a cached FST is a loaded FST: a failed load must not leave an entry behind
+//@ mapinv[C08,C18,C19] Segment.fieldFSTs v != nil
+//@ typeinv Dictionary self.fstReader != nil ==> rfst(self.fstReader) != nil
+//@
 //@ func (*Segment).dictionary
 //@   safety[C08,C18,C19] nil idx slice map
+//@   ensures[C08,C18,C19] @reader_has_fst err == nil && rv != nil && rv.fstReader != nil ==> rfst(rv.fstReader) != nil
 //@   requires[C08,C18] s != nil
 //@   ensures[C08,C18] err == nil && s.fieldsMap[field] == 0 ==> rv == nil
 //@   ensures[C08,C18] err == nil && s.fieldsMap[field] > 0 ==> rv != nil && rv.sb == s && rv.fieldID == s.fieldsMap[field] - 1
@@ -614,3 +619,56 @@ package ice
 //@   safety[C08,C13] nil
 //@   requires[C08,C13] p != nil
 //@   requires[C08,C13] p.normBits1Hit == 0 && p.postings != nil && card(bset(p.postings)) > 0 ==> p.sb != nil
+//@
+//@ // ---- shared sentinels (C09, C15) ----
+//@ // emptyPostingsList / emptyPostingsIterator are handed to every reader of every
+//@ // segment; writing one of them is both a data race and a change of what other
+//@ // readers observe. Every function that fills a list or iterator is under contract
+//@ // never to receive the sentinel.
+//@ func (*Dictionary).postingsListInit
+//@   ensures[C09,C15] @never_the_shared_sentinel result0 != emptyPostingsList
+//@ func (*PostingsList).read
+//@   requires[C09,C15] p != emptyPostingsList
+//@ func (*PostingsList).init1Hit
+//@   requires[C09,C15] p != emptyPostingsList
+//@ func persistMergedRestField
+//@   loop 0 invariant[C09,C15] postItr != emptyPostingsIterator
+//@ func (*PostingsList).iterator
+//@   requires[C09,C15] rv != emptyPostingsIterator
+//@   ensures[C09,C15] result1 == nil ==> result0 != emptyPostingsIterator
+//@   at store:PostingsIterator.postings#0 lemma[C09,C15] rv != emptyPostingsIterator
+//@
+//@ // ---- writer/reader agreement on the chunk size of a term's freq/norm and location streams ----
+//@ // The reader recomputes it from the persisted bitmap's cardinality ((*PostingsList).read, post
+//@ // on p.chunkSize); the builder must derive it from the very bitmap it persists for the term.
+//@ func (*interim).writeDictsTermField
+//@   at call:getChunkSize#0 lemma[C01,C10] result1 == nil ==> result0 == chunkSizeV2(s.chunkMode, card(bset(postingsBS)), len(s.results))
+//@   // interimFreqNorm.freq is uint64(tf.Frequency()) of an analysed token frequency, a non-negative int
+//@   at call:(github.com/RoaringBitmap/roaring.IntPeekable).Next#0 assume freqNorms[freqNormOffset].freq <= 9223372036854775807
+//@
+//@ // ---- stored-record offsets (C06, C03) ----
+//@ // The offset recorded for a document must be the position, inside its block, at which
+//@ // Add appended that document's record: the coder's buffered size immediately before Add.
+//@ ghostfield * recoff int
+//@ func (*chunkedDocumentCoder).Size
+//@   ensures[C03,C06] c.buf != nil ==> result0 == outlen(c.buf)
+//@ func (*chunkedDocumentCoder).Add
+//@   ghostset recoff(c) = old(outlen(c.buf))
+//@   ensures[C01,C03,C06] recoff(c) == old(outlen(c.buf))
+//@ func mergeStoredAndRemap
+//@   loop 0 invariant[C03,C06] docChunkCoder != nil && docChunkCoder.buf != nil && arr(docNumOffsets) != arr(docChunkCoder.offsets) && arr(docNumOffsets) != 0
+//@ func mergeStoredAndRemapSegment
+//@   requires[C03,C06] docChunkCoder.buf != nil && arr(docNumOffsets) != arr(docChunkCoder.offsets) && arr(docNumOffsets) != 0
+//@   loop 0 invariant[C03,C06] arr(docNumOffsets) != arr(docChunkCoder.offsets)
+//@   at call:(*chunkedDocumentCoder).Size#0 lemma[C03,C06] result0 == outlen(docChunkCoder.buf)
+//@   at call:(*chunkedDocumentCoder).Add#0 lemma[C03,C06] docNumOffsets[newDocNum] == recoff(docChunkCoder)
+//@ func (*Segment).copyStoredDocs
+//@   requires[C03,C06] docChunkCoder != nil && docChunkCoder.buf != nil && arr(newDocNumOffsets) != arr(docChunkCoder.offsets) && arr(newDocNumOffsets) != 0
+//@   loop 0 invariant[C03,C06] arr(newDocNumOffsets) != arr(docChunkCoder.offsets)
+//@   loop 1 invariant[C03,C06] arr(newDocNumOffsets) != arr(docChunkCoder.offsets)
+//@   at call:(*chunkedDocumentCoder).Add#0 lemma[C03,C06] newDocNumOffsets[newDocNum] == recoff(docChunkCoder)
+//@ func (*interim).writeStoredFields
+//@   loop 0 invariant[C01,C06] docChunkCoder != nil && docChunkCoder.buf != nil && arr(docStoredOffsets) != arr(docChunkCoder.offsets) && arr(docStoredOffsets) != 0
+//@   loop 1 invariant[C01,C06] docChunkCoder != nil && docChunkCoder.buf != nil && arr(docStoredOffsets) != arr(docChunkCoder.offsets) && arr(docStoredOffsets) != 0
+//@   loop 2 invariant[C01,C06] docChunkCoder != nil && docChunkCoder.buf != nil && arr(docStoredOffsets) != arr(docChunkCoder.offsets) && arr(docStoredOffsets) != 0
+//@   at call:(*chunkedDocumentCoder).Add#0 lemma[C01,C06] docStoredOffsets[docNum] == recoff(docChunkCoder)
